@@ -18,6 +18,8 @@ type intrinsicFn func(e *Engine, st *State, fr *Frame, args []Value, in *ssa.Cal
 var intrinsics = map[string]intrinsicFn{}
 
 var intrinsicDoc = map[string]string{
+	"(*golang.org/x/crypto/cryptobyte.String).ReadASN1ObjectIdentifier": "true iff next TLV is a DER OBJECT IDENTIFIER with well-formed base-128 content (oidwf, uninterpreted); advances; value abstract",
+	"(encoding/asn1.ObjectIdentifier).Equal":                            "against a constant OID: true iff the parsed content octets equal the constant's canonical DER content (bijection of X.690 8.19 encodings on well-formed content)",
 	"math/bits.Add64": "sum + 2^64*carryOut = x + y + carry, carryOut in {0,1} (requires carry in {0,1})",
 	"math/bits.Sub64": "diff - 2^64*borrowOut = x - y - borrow, borrowOut in {0,1} (requires borrow in {0,1})",
 	"math/bits.Mul64": "hi*2^64 + lo = x*y",
@@ -179,6 +181,97 @@ func init() {
 		}
 		return &StrVal{known: true, s: strings.Repeat(s.s, int(n.Val.Int64()))}
 	}
+	// ---- OBJECT IDENTIFIER: assumed contracts (decoding loop over a symbolic number of octets) --------
+	// ReadASN1ObjectIdentifier succeeds iff the next TLV is a DER OBJECT IDENTIFIER whose content is a
+	// well-formed base-128 component sequence (oidwf, uninterpreted); the decoded value is kept abstract and
+	// remembers the content octets it was decoded from.
+	intrinsics["(*golang.org/x/crypto/cryptobyte.String).ReadASN1ObjectIdentifier"] = func(e *Engine, st *State, fr *Frame, args []Value, in *ssa.Call) Value {
+		e.usedIntrinsic("(*golang.org/x/crypto/cryptobyte.String).ReadASN1ObjectIdentifier")
+		sp, op := args[0].(*PtrVal), args[1].(*PtrVal)
+		cur := e.load(st, sp, fr).(*SliceVal)
+		env := &SpecEnv{e: e, st: st, fnName: "ReadASN1ObjectIdentifier"}
+		mk := func(s *State, ok bool) callOutcome {
+			env := &SpecEnv{e: e, st: s, fnName: "ReadASN1ObjectIdentifier"}
+			if !ok {
+				// the parser may have consumed input: both cells are unknown afterwards
+				e.havocCell(s, cellRef{sp.reg, sp.path, subType(sp.reg.typ, sp.path)}, e.freshName("ReadOID"))
+				e.havocCell(s, cellRef{op.reg, op.path, subType(op.reg.typ, op.path)}, e.freshName("ReadOID"))
+				return callOutcome{st: s, result: tFalse}
+			}
+			content := env.derContent(cur)
+			r := e.newRegion(e.freshName("oid"), types.Typ[types.Int], true)
+			r.dyn = true
+			r.dynLen = mkIntVarR(r.name+".len", big0, big.NewInt(1<<20))
+			r.ghostBytes = content
+			s.mem.cells[pathKey(r.id, nil)] = &Term{Op: "var", Sort: SArr, Name: r.name + ".arr"}
+			e.store(s, op, &SliceVal{reg: r, off: mkInt64(0), length: r.dynLen, capacity: r.dynLen, elem: types.Typ[types.Int], backingN: -1})
+			e.store(s, sp, env.derRest(cur))
+			return callOutcome{st: s, result: tTrue}
+		}
+		if cur.reg == nil {
+			return &forkVal{outs: []callOutcome{mk(st, false)}}
+		}
+		content := env.derContent(cur)
+		var arr *Term
+		if content.reg.dyn {
+			arr = e.dynArr(st, content.reg)
+		} else {
+			e.fail("ReadASN1ObjectIdentifier over an expanded region")
+		}
+		wf := mkApp("oidwf", SBool, arr, content.off, content.length)
+		// canonical encodings of the OIDs this code base compares against are well formed (ground facts
+		// about base-128: no leading 0x80 octet, last octet of each component below 0x80)
+		for _, enc := range [][]byte{oidEcPublicKeyContent, oidSecp256k1Content} {
+			st.assume(mkImplies(env.bytesEqualConst(content, enc), wf))
+		}
+		cond := st.sub(mkAnd(env.derOK(cur, mkInt64(6)), mkLe(mkInt64(1), content.length), wf))
+		if knownTrue(st, cond) {
+			return &forkVal{outs: []callOutcome{mk(st, true)}}
+		}
+		if knownFalse(st, cond) {
+			return &forkVal{outs: []callOutcome{mk(st, false)}}
+		}
+		st2 := st.fork()
+		st.assume(cond)
+		st2.assume(mkNot(cond))
+		var outs []callOutcome
+		if !st.infeasible() && !e.unsatisfiable(st.hyps) {
+			outs = append(outs, mk(st, true))
+		}
+		if !st2.infeasible() && !e.unsatisfiable(st2.hyps) {
+			outs = append(outs, mk(st2, false))
+		}
+		return &forkVal{outs: outs}
+	}
+	// ObjectIdentifier.Equal against a constant OID: component-wise equality <=> the content octets are the
+	// (unique, minimal) DER encoding of the constant (X.690 8.19; the parser rejects non-minimal base-128).
+	intrinsics["(encoding/asn1.ObjectIdentifier).Equal"] = func(e *Engine, st *State, fr *Frame, args []Value, in *ssa.Call) Value {
+		e.usedIntrinsic("(encoding/asn1.ObjectIdentifier).Equal")
+		a, b := args[0].(*SliceVal), args[1].(*SliceVal)
+		if a.reg == nil || a.reg.ghostBytes == nil {
+			a, b = b, a
+		}
+		if a.reg == nil || a.reg.ghostBytes == nil {
+			e.fail("ObjectIdentifier.Equal: no parsed OID operand")
+		}
+		if b.reg == nil || !b.length.IsConst() {
+			e.fail("ObjectIdentifier.Equal: the other operand is not a constant OID")
+		}
+		var comp []int64
+		for i := int64(0); i < b.length.Val.Int64(); i++ {
+			c := e.sliceElem(st, b, mkInt64(i))
+			if !c.IsConst() {
+				e.fail("ObjectIdentifier.Equal: the other operand is not a constant OID")
+			}
+			comp = append(comp, c.Val.Int64())
+		}
+		env := &SpecEnv{e: e, st: st, fnName: "ObjectIdentifier.Equal"}
+		eq := env.bytesEqualConst(a.reg.ghostBytes, oidContent(comp))
+		// the canonical encoding of a constant OID is well formed
+		g := a.reg.ghostBytes
+		st.assume(mkImplies(eq, mkApp("oidwf", SBool, e.dynArr(st, g.reg), g.off, g.length)))
+		return eq
+	}
 	intrinsics["(*errors.errorString).Error"] = func(e *Engine, st *State, fr *Frame, args []Value, in *ssa.Call) Value {
 		return &StrVal{}
 	}
@@ -330,7 +423,7 @@ func (e *Engine) appendSlices(st *State, fr *Frame, s, add *SliceVal) Value {
 		k := newLen.Val.Int64()
 		at := types.NewArray(s.elem, k)
 		r := e.newRegion(fr.fn.Name()+".append#"+fmt.Sprint(e.regionN+1), at, true)
-		r.created = st.epoch
+		r.created = st.epoch + 1
 		e.initRegionZero(st, r)
 		ns := &SliceVal{reg: r, off: mkInt64(0), length: newLen, capacity: newLen, elem: s.elem, backingN: k}
 		sl := int64(0)
